@@ -105,8 +105,7 @@ fn c14_layout() {
     let lo: i64 = kani::any();
     let hi: i64 = kani::any();
     kani::assume(lo <= hi);
-    // the number of points is representable (the crate computes it in i64 / usize)
-    kani::assume((hi as i128) - (lo as i128) + 1 <= i64::MAX as i128);
+    // every i64 domain: the number of points may need 65 bits
     let len: u128 = ((hi as i128) - (lo as i128) + 1) as u128;
     match Layout::new(lo, hi) {
         None => {
@@ -118,8 +117,9 @@ fn c14_layout() {
             let scale = layout.scale_for_verif();
             kani::cover!(scale == 0);
             kani::cover!(scale > 30);
+            kani::cover!(scale == 59);
             kani::cover!(lo < 0 && hi > 0);
-            assert!(scale < 59);
+            assert!(scale <= 59);
             // 32 buckets of width 2^scale cover the domain, and no smaller power of two does
             assert!((32u128 << scale) >= len);
             assert!(scale == 0 || (16u128 << scale) < len);
@@ -145,7 +145,6 @@ fn c14_masks_backed_by_storage() {
     let lo: i64 = kani::any();
     let hi: i64 = kani::any();
     kani::assume(lo <= hi);
-    kani::assume((hi as i128) - (lo as i128) + 1 <= i64::MAX as i128);
     if let Some(layout) = Layout::new(lo, hi) {
         let x: i64 = kani::any();
         let y: i64 = kani::any();
